@@ -1,6 +1,7 @@
 """C04 bounded native leg: StackSlice / extract_since / extract_until vs the true stack (manual f_back / greenlet.parent walk).
 Bounds: call depth 5 in the main greenlet x all (outer, inner, limit) with outer/inner in the stack or None, limit in
-{None,1..N+1}; nested greenlets (3 levels x depth 2) x all (outer, inner) x limit in {None,1,2,N,N+1}, called from a plain
+{None,1..N+1}; nested greenlets (3 levels x depth 2) x all (outer, inner) x limit in {None,1,2,N,N+1}; parent chains with a dead
+middle ancestor, a dead immediate parent and a never-started middle ancestor x all (outer, inner) x limit in {None,1,N}; called from a plain
 function, from a running generator and from a running coroutine; extract_until with int and frame limits."""
 import sys, os, itertools
 sys.path.insert(0, os.path.dirname(__file__))
@@ -96,4 +97,33 @@ def level(k):
 
 
 rec(1, level(2))
+
+
+# parent chains with an ancestor that has no frame: dead (finished) or never started.  An exception raised in the innermost
+# greenlet propagates past such an ancestor to ITS parent, so the ancestor contributes nothing and the walk goes on.
+def topology(tag, dead_immediate, dead_middle, unstarted_middle):
+    hold = {}
+    def inner():
+        rec(1, lambda: check(tag, lambda N: [None, 1, N]))
+    def mid():            # alive, suspended in inner.switch()
+        g = greenlet.greenlet(inner)
+        g.switch()
+    def maker():          # creates the greenlet(s) whose parent is `maker` itself, then finishes: a dead ancestor
+        hold["child"] = greenlet.greenlet(inner if dead_immediate else mid)
+    gm = greenlet.greenlet(maker)
+    if unstarted_middle:
+        # a greenlet that never runs, spliced into the chain as parent of `mid`
+        never = greenlet.greenlet(lambda *a: None)
+        child = greenlet.greenlet(mid)
+        child.parent = never
+        child.switch()
+        return
+    gm.switch()
+    assert gm.dead
+    hold["child"].switch()
+
+
+rec(1, lambda: topology("greenlets-dead-middle-ancestor", False, True, False))
+rec(1, lambda: topology("greenlets-dead-immediate-parent", True, False, False))
+rec(1, lambda: topology("greenlets-unstarted-middle-ancestor", False, False, True))
 leg.finish(exhaustive=True)
